@@ -303,17 +303,51 @@ def unconvPack (pk : Bytes) : Bytes :=
     | some p => p.1 ++ pk.dropLast
     | none => []
 
-def printField (f : PField) : Bytes :=
-  (if f.length = 1 then f.name else f.name ++ [91] ++ printNat f.length ++ [93]) ++ [32] ++
-  unconvPack f.pack ++ [32] ++ printInt f.offset ++ [32] ++ f.printf ++ [32] ++ printInt f.default ++ [10]
+/-- tokens joined by single spaces -/
+def joinSp : List Bytes → Bytes
+  | [] => []
+  | [t] => t
+  | t :: ts => t ++ 32 :: joinSp ts
 
-def printStruct (s : PStruct) : Bytes :=
-  kName ++ [32, 61, 32] ++ s.name ++ [10] ++
-  kSize ++ [32, 61, 32] ++ printInt (s.size.getD 0) ++ [10] ++
-  kBase ++ [32, 61, 32] ++ printInt (s.base.getD 0) ++ [10] ++
-  (s.fields.map printField).flatten
+/-- the field token: `name` or `name[length]` -/
+def fieldTok (f : PField) : Bytes :=
+  if f.length = 1 then f.name else f.name ++ 91 :: (printNat f.length ++ [93])
 
-def printStructs (ss : List PStruct) : Bytes := (ss.map printStruct).flatten
+def fieldToks (f : PField) : List Bytes :=
+  [fieldTok f, unconvPack f.pack, printInt f.offset, f.printf, printInt f.default]
+
+/-- the lines of one struct, each as its tokens -/
+def structLines (s : PStruct) : List (List Bytes) :=
+  [kName, [61], s.name] :: [kSize, [61], printInt (s.size.getD 0)] :: [kBase, [61], printInt (s.base.getD 0)] ::
+    s.fields.map fieldToks
+
+def printLine (toks : List Bytes) : Bytes := joinSp toks ++ [10]
+
+/-- canonical text of a table: `name = ..`, `size = ..`, `base = ..`, one line per field -/
+def printStructs (ss : List PStruct) : Bytes := ((ss.flatMap structLines).map printLine).flatten
+
+/-! ### executable well-formedness (the hypothesis of `parse_print`, decided) -/
+
+def tokB (t : Bytes) : Bool := !t.isEmpty && t.all (fun c => !isWs c && c != 35)
+
+def packOKB (pk : Bytes) : Bool :=
+  match pk.getLast? with
+  | some c => pk.dropLast.all isDigit && (c == 115 || c == 98 || c == 66 || c == 72 || c == 73)
+  | none => false
+
+def fieldWFB (f : PField) : Bool :=
+  tokB f.name && ((f.length == 1 && (matchArray f.name).isNone) || (f.length != 1 && f.name.all isWord)) &&
+    packOKB f.pack && tokB f.printf
+
+def distinctB : List Bytes → Bool
+  | [] => true
+  | a :: r => !r.contains a && distinctB r
+
+def structWFB (s : PStruct) : Bool :=
+  tokB s.name && s.size.isSome && s.base.isSome && s.fields.all fieldWFB && distinctB (s.fields.map (·.name))
+
+def tableWFB (ss : List PStruct) : Bool :=
+  !ss.isEmpty && ss.all structWFB && distinctB (ss.map (·.name))
 
 /-! ### `struct.pack(b"<" + pack_chars, default)` for every pack string the parser produces -/
 
@@ -394,8 +428,13 @@ def handle (op : String) (j : Json) : R Json := do
   | "num" =>
     pure (jOpt jInt (parseNum (unhex (← str j "tok"))))
   | "print" =>
+    -- canonical text of a table, whether the table is well formed (hypothesis of `parse_print`) and, if
+    -- `parsed` (what the implementation made of the text) is given, whether it is the table
     let ss ← (← arr j "structs").mapM pstructOfJson
-    pure (jBytes (printStructs ss))
+    let back ← match ← opt j "parsed" asArr with
+      | none => pure []
+      | some p => do pure [("roundtrip", Json.bool ((← p.mapM pstructOfJson) == ss))]
+    pure (Json.mkObj ([("text", jBytes (printStructs ss)), ("wf", Json.bool (tableWFB ss))] ++ back))
   | "packv" =>
     match packValueFull (unhex (← str j "pack")) (← int j "v") with
     | .ok b => pure (jOk (Json.str (hex b)))
